@@ -55,9 +55,12 @@ def defuse_xml(fp: IOType, rewind: bool = True) -> IOType:
     """
     if rewind and not fp.seekable():
         if isinstance(fp, io.RawIOBase):
-            # Wrap a not seekable raw IO object in a BufferedReader
+            # Wrap a not seekable raw IO object in a BufferedReader, that is then
+            # wrapped as the other not seekable buffered resources (a BufferedReader
+            # on a not seekable raw stream can't be rewound either).
             fp = io.BufferedReader(fp)
-        elif isinstance(fp, io.BufferedIOBase):
+
+        if isinstance(fp, io.BufferedIOBase):
             # Other not seekable BufferedIOBase resources are wrapped in
             # a custom reader with an initial buffer of 64KiB bytes.
             try:
